@@ -25,6 +25,12 @@ CLAIMED = {
              '(none, valid, invalid address). Counterexamples are replayed natively by reproducing every predicted balance and reserve.',
         ref='DESIGN.md §6 C04',
         note=TRUST + 'Addresses and denoms are concrete labels; amounts are symbolic.'),
+    'C06': dict(
+        text='Bounded histories of claims by two explicit users (plus an aggregated remainder of other users) on one farm, executed through the public '
+             'Claim message from symbolic weights/rates: every rightful claim succeeds in any order, each user is paid exactly the ledger sum of their '
+             'epoch shares (nothing before their weight took effect, nothing twice), the total stays within emission x elapsed epochs and the budget.',
+        ref='DESIGN.md §6 C06',
+        note=TRUST + 'Bounded: 3 claims, window of 10 epochs, concrete snapshot epochs; sum of user weights <= total weight is assumed (C10).'),
     'C07': dict(
         text='Claims executed through the public Claim message on a bounded epoch window (current epoch 10, concrete snapshot / farm epochs, symbolic '
              'weights, rates and budgets): the amount paid equals an independent ledger sum of floor(emission * weight in effect / total in effect); cursor, '
